@@ -1603,12 +1603,12 @@ def cases(tier, seed):
     # wraps round silently and EVERY position is rejected with 'Incorrect index', e.g. teneva.vector_delta(np.int32(40), 5)).
     # possible defects (fail on the pinned tree): NumPy scalars rejected by isinstance(., (int, float)) gates
     for fn in ('rand', 'rand_norm', 'rand_stab', 'rand_custom'):
-        for rform in ('np64', 'np32') + (('npf32', '0d') if big else ()):
+        for rform in ('np64', 'np32') + (('npf32',) if big else ()):      # a 0-d ARRAY is an ndarray: documented as the per-bond list, not a scalar
             yield 'C19.rand.rank_numpy_scalar', dict(fn=fn, n=[4, 3, 5], r=3, rform=rform)
     for fn in ('rand', 'rand_norm', 'rand_stab'):
         for sform in ('np64', 'np32'):
             yield 'C19.rand.seed_numpy_int', dict(fn=fn, n=[4, 3, 5], r=3, seed=7, sform=sform)
-    for sform in ('np64', 'npf32') + (('np32', '0d') if big else ()):
+    for sform in ('np64', 'npf32') + (('np32',) if big else ()):         # (0-d arrays: see above)
         yield 'C19.poly.shift_numpy_scalar', dict(n=[3, 2, 4], shift=1 if sform != 'npf32' else 1.5, sform=sform)
     for which in ('const', 'const_zero', 'delta', 'poly', 'poly_shift', 'poly_shift_power', 'rand', 'rand_norm',
                   'rand_custom', 'rand_stab', 'vector_delta', 'matrix_delta'):
